@@ -361,9 +361,9 @@ PROPS["C05"] = {
     "modules": ["SlogModel.Props.C05", "SlogModel.Props.C05Path"],
     "components": [("agent-c05", 100, 800), ("client", 300, 5000), ("buffer", 120, 2000)],
     "rule": 'one case = one end-to-end run of the real agent in process (run.NewLoaderFromConfigFile -> StartOrchestrator -> LaunchInputs: TCP syslog input, extractions, transforms incl. a 100% drop filter, byKeySet orchestration, hybrid buffer, Fluentd Forward output in one of the three message modes) against a scripted fake upstream (per connection attempt: close at once / reset after k chunks / never ACK / late ACK / unknown-id ACK / healthy), 1-3 generations of graceful stop + restart on one queue directory, 1-3 client connections x 10-90 stamped records over 1-3 key sets with malformed and filtered records mixed in, stop after 0-100 ms, upstream session age 0/20/50/150 ms; all timeouts scaled to 10 ms - 2 s; the last generation ends with a healthy upstream; distinct by script; all non-trivial',
-    "level_text": 'Theorems on the same system: C05_chunks_hold_arrival_order (records of the chunks concatenated in id order = records in arrival order), C05_chunk_order_per_connection (strictly increasing ids on every upstream connection), C05_first_delivery_in_order / _spelled_out (at its first transmission a chunk is newer than everything transmitted before), C05_never_skips_older. From the connection handler to the pipeline channel (Model/Dist.lean: the buffer of the parsing sink, the per-connection buffer of each key set, the shared channel; parsing, hand-over and flushing are separate actions, so every threshold / tick / close pattern on any number of connections is one of the interleavings): C05_path_keeps_order (what the channel of a key set received from a connection is, in order, a prefix of what was parsed on it for that key set) and C05_path_complete_when_flushed; five regenerated source facts (append, whole-buffer hand-over, per-record loop, copy-and-send). Tie: the harness checks chunk-id order per upstream connection and tag and first-delivery order per (client connection, key set) from per-record stamps on real runs with spills, restarts and retransmissions.',
-    "level_note": "Trusted: as C01; order within one client connection is C08 (framing), then Dist.step up to the pipeline channel, then the pipeline worker (one goroutine per key set, batches and records in order: C12 / C11). The timeout branch of channelInputBuffer.Flush (a batch discarded when the pipeline channel stays full; logged as a bug by the code) is not modelled.",
-    "partial": 'composition of the stage models by reading; the discard-on-timeout branch of the channel flush is outside the model',
+    "level_text": 'Theorems on the same system: C05_chunks_hold_arrival_order (records of the chunks concatenated in id order = records in arrival order), C05_chunk_order_per_connection (strictly increasing ids on every upstream connection), C05_first_delivery_in_order / _spelled_out (at its first transmission a chunk is newer than everything transmitted before), C05_never_skips_older. From the connection handler to the pipeline channel (Model/Dist.lean: the buffer of the parsing sink, the per-connection buffer of each key set, the shared channel; parsing, hand-over and flushing are separate actions, so every threshold / tick / close pattern on any number of connections is one of the interleavings): C05_path_keeps_order (what the channel of a key set received from a connection is, in order, a subsequence of what was parsed on it for that key set and a prefix of what was not discarded - the flush that times out on a full channel and drops its batch is an action of the model), C05_path_prefix_without_discards and C05_path_complete_when_flushed (when no flush timed out); five regenerated source facts (append, whole-buffer hand-over, per-record loop, copy-and-send). Tie: the harness checks chunk-id order per upstream connection and tag and first-delivery order per (client connection, key set) from per-record stamps on real runs with spills, restarts and retransmissions.',
+    "level_note": "Trusted: as C01; order within one client connection is C08 (framing), then Dist.step up to the pipeline channel, then the pipeline worker (one goroutine per key set, batches and records in order: C12 / C11). The timeout branch of channelInputBuffer.Flush (a batch discarded when the pipeline channel stays full; logged as a bug by the code) is the action cdiscard of the path model: it loses records (C01's concern, counted nowhere) but not their order.",
+    "partial": 'composition of the stage models by reading',
     "assumptions": ["the composition of component contracts in E2E.step matches how the components are wired (read from orchestrate/, buffer/, output/)"],
 }
 
